@@ -430,7 +430,17 @@ class _VersionIndependentUnmarshaller:
     # Since Python 3.4
     def t_interned(self, save_ref, bytes_for_s=False):
         strsize = unpack("<i", self.fp.read(4))[0]
-        interned = compat_str(self.fp.read(strsize))
+        interned = self.fp.read(strsize)
+        if self.long_type is int:
+            # Python 3 bytecode: a str object, which marshal.c writes as UTF-8
+            # with "surrogatepass" (3.13 interns co_filename, and a file name
+            # that is not valid UTF-8 reaches the compiler with surrogate escapes).
+            try:
+                interned = interned.decode("utf-8", "surrogatepass")
+            except UnicodeDecodeError:
+                pass
+        else:
+            interned = compat_str(interned)
         self.internStrings.append(interned)
         return self.r_ref(interned, save_ref)
 
